@@ -548,7 +548,7 @@ pub fn execute(plan: &Plan, trace: bool) -> Exec {
         Some(Err(e)) => ex.violation("C07/setup", e),
         Some(Ok((problems, nh, ns))) => {
             ex.probe("healthy_streams", nh as u64);
-            ex.probe("stalled_streams", ns as u64);
+            ex.fault("peer_stream_stalled", ns as u64);
             ex.nontrivial = nh > 0 && ns > 0;
             if let Some((c, d)) = problems.into_iter().next() {
                 ex.violation(&c, d);
